@@ -3,12 +3,12 @@
 # Skips (and re-runs) a check when /repo's tracked files were modified during the run (mutant / seeded-change evaluation in progress).
 cd "$(dirname "$0")/.."
 first=${1:-100}; last=${2:-140}; shift 2
-checks=${@:-C01 C02 C03 C04 C05 C07 C08 C09 C10 C11 C12 C13 C16 C17 C18 C19 C20}
+checks=${@:-C01 C02 C03 C04 C05 C06 C07 C08 C09 C10 C11 C12 C13 C15 C16 C17 C18 C19 C20}
 for seed in $(seq $first $last); do
   for c in $checks; do
     while [ -n "$(git -C /repo status --porcelain --untracked-files=no)" ]; do sleep 20; done
     out=$(./check.py $c --tier quick --seed $seed 2>&1); rc=$?
     if [ -n "$(git -C /repo status --porcelain --untracked-files=no)" ]; then echo "seed $seed $c: repo was modified during the run, ignoring"; continue; fi
-    if [ $rc -ne 0 ] || echo "$out" | grep -q "VIOLATION\|KNOWN-FINDING\|HARNESS"; then echo "=== seed $seed $c rc=$rc"; echo "$out" | grep -v "^VIOLATION" | cut -c1-700 | tail -8; mkdir -p soak_replays; cp replays/$c-* soak_replays/ 2>/dev/null; else echo "seed $seed $c clean: $(echo "$out" | tail -1 | cut -c1-120)"; fi
+    if [ $rc -ne 0 ] || echo "$out" | grep -q "VIOLATION\|HARNESS"; then echo "=== seed $seed $c rc=$rc"; echo "$out" | grep -v "^VIOLATION" | cut -c1-700 | tail -8; mkdir -p soak_replays; cp replays/$c-* soak_replays/ 2>/dev/null; else echo "seed $seed $c clean: $(echo "$out" | tail -1 | cut -c1-120)"; fi
   done
 done
